@@ -366,6 +366,7 @@ class Engine:
         self.layout = layout       # callable key -> sortable rank, or None = insertion order
         self.eq_cache = {}
         self.unwinding = 0
+        self.stack = []
         self.trace_calls = False
         self.stmt_budget = 2_000_000
         from summaries import SUMMARIES
@@ -596,7 +597,9 @@ class Engine:
         if t == 'isize::MAX':
             return ISIZE_MIN - 1
         if t.startswith('"') or t.startswith('b"'):
-            return Opaque('str')
+            if getattr(self, '_static_str', None) is None:
+                self._static_str = self.new_obj('static', Opaque('str'))
+            return Ptr(self._static_str)
         if t == 'log::STATIC_MAX_LEVEL':
             return Agg('LevelFilter', 'Trace')
         if t.endswith(']') and '::promoted[' in t:
@@ -815,9 +818,15 @@ class Engine:
             self.max_depth = self.depth
         self.call_counts[body.name] = self.call_counts.get(body.name, 0) + 1
         self.bodies_used.add(body.name)
+        self.stack.append(body.name)
         try:
             return self._exec(fr, fobj)
+        except (UB, Panic, Abort) as e:
+            if not hasattr(e, 'stack'):
+                e.stack = list(self.stack)
+            raise
         finally:
+            self.stack.pop()
             self.depth -= 1
             if not keep_frame:
                 fobj.live = False
